@@ -230,6 +230,19 @@ pub fn check_bitmap(c: &BitmapCase) -> Verdict {
 
 fn g_bitmap() -> BoxedStrategy<BitmapCase> {
     prop_oneof![
+        // structurally valid symbol with a few surplus (or missing) pixels at the end
+        2 => (any::<u16>(), any::<u64>(), any::<u16>(), any::<bool>()).prop_map(|(s, seed, k, surplus)| {
+            let sym = &SYMBOLS[pick_sym(s)];
+            let data = expand(seed, sym.data);
+            let mut bits = place::render(sym, &codeword_for(sym, &data));
+            let d = 1 + pick(k, sym.cols - 1);
+            if surplus {
+                bits.extend((0..d).map(|i| i % 2 == 0));
+            } else {
+                bits.truncate(bits.len() - d);
+            }
+            BitmapCase { width: sym.cols, bits, stratum: "valid-symbol-surplus-or-missing-pixels" }
+        }),
         // arbitrary small arrays
         2 => (0usize..34, 0usize..34, any::<u64>(), any::<u8>()).prop_map(|(w, h, seed, dens)| {
             let bytes = expand(seed, w * h);
@@ -286,6 +299,22 @@ fn run(ctx: &Arc<Ctx>) {
     ctx.run_enumerated("streams-latch", "stream", enum_latch(), Some("all [latch, a, b] for the 7 latch / shift / ECI codewords and all a, b"), check_stream);
     ctx.run_enumerated("streams-eci", "stream", enum_eci(!ctx.quick()), if ctx.quick() { None } else { Some("all three-codeword ECI designators [241, 192..=207, b, c]") }, check_stream);
     ctx.run_enumerated("streams-charset", "stream", enum_charsets(), Some("256 byte values x 12 ECI numbers (incl. 3, 11, 13, 26, 27), carried by ASCII and by Base256"), check_stream);
+    // inputs far longer than any symbol (the entry points take any slice): 16-bit counters would wrap
+    let mut huge = Vec::new();
+    for n in [65_535usize, 65_536, 65_537, 70_000, 131_075] {
+        huge.push(BytesCase { bytes: vec![66; n], stratum: "huge-ascii" });
+        huge.push(BytesCase { bytes: (0..n).map(|i| 130 + (i % 100) as u8).collect(), stratum: "huge-digit-pairs" });
+        let mut c40 = vec![230u8];
+        c40.extend((0..n).map(|i| [89u8, 233][i % 2]));
+        huge.push(BytesCase { bytes: c40, stratum: "huge-c40" });
+        let mut edi = vec![240u8];
+        edi.extend((0..n).map(|i| (i * 37 % 251) as u8 & 0xdf | 0x10));
+        huge.push(BytesCase { bytes: edi, stratum: "huge-edifact" });
+        let mut b = vec![231u8];
+        b.extend((0..n).map(|i| (i * 131 % 256) as u8));
+        huge.push(BytesCase { bytes: b, stratum: "huge-base256" });
+    }
+    ctx.run_enumerated("streams-huge", "stream", huge, None, check_stream);
     ctx.run_generated("streams", "stream", ctx.cases(200_000, 10_000_000), g_stream, check_stream);
     // (b) received words of exactly the symbol's length
     let mut singles = Vec::new();
@@ -303,6 +332,12 @@ fn run(ctx: &Arc<Ctx>) {
     ctx.run_generated("rs-constrained-beyond", "rs", ctx.cases(40_000, 1_500_000), || g_constrained_values(Radius::Beyond), check_rs);
     ctx.run_generated("rs-near-miss", "rs", ctx.cases(20_000, 1_000_000), g_near_miss, check_rs);
     // (c) pixel arrays
+    let mut hugebm = Vec::new();
+    for (w, n) in [(1usize, 70_000usize), (256, 65_536), (300, 90_000), (65_536, 131_072), (144, 144 * 456), (10, 2_660), (9, 9 * 266)] {
+        hugebm.push(BitmapCase { width: w, bits: (0..n).map(|i| i % 3 == 0 || i % w == 0).collect(), stratum: "huge-bitmap" });
+        hugebm.push(BitmapCase { width: w, bits: vec![true; n], stratum: "huge-bitmap-dark" });
+    }
+    ctx.run_enumerated("bitmaps-huge", "bitmap", hugebm, None, check_bitmap);
     ctx.run_generated("bitmaps", "bitmap", ctx.cases(60_000, 3_000_000), g_bitmap, check_bitmap);
 }
 
